@@ -276,10 +276,16 @@ func c04ChainStyled(style int, ops []int, unaryPos, unaryOp, deco int) []c04Tok 
 	return toks
 }
 
+// c04OpGap: what separates the words of a multi-word operator in the bare spelling (the parenthesised one keeps a blank)
+var c04OpGap = " "
+
 func c04Bare(toks []c04Tok) string {
 	parts := make([]string, len(toks))
 	for i, t := range toks {
 		parts[i] = t.val
+		if t.kind == "op" && c04OpGap != " " {
+			parts[i] = strings.ReplaceAll(t.val, " ", c04OpGap)
+		}
 	}
 	return strings.Join(parts, " ")
 }
@@ -331,6 +337,11 @@ func c04Run(c core.Case) core.Result {
 	style := 0
 	if c.Fam == "chainlit" { // N = [style, unaryPos, unaryOp, deco, ops...]
 		style = c.N[0]
+		c.N = c.N[1:]
+	}
+	if c.Fam == "chaingap" { // N = [gap, unaryPos, unaryOp, deco, ops...]
+		c04OpGap = []string{" ", "  ", "\t", "\n", " \n  "}[c.N[0]]
+		defer func() { c04OpGap = " " }()
 		c.N = c.N[1:]
 	}
 	unaryPos, unaryOp, deco, ops := c.N[0], c.N[1], c.N[2], c.N[3:]
@@ -518,6 +529,19 @@ func c04Gen(k int, decorate bool, emit func(core.Case)) {
 
 func c04Levels(tier string) []core.Level {
 	lv := []core.Level{
+		{Name: "chains of 2 operators of which one is written in several words (not in, is not, starts with, ends with), its words separated by two blanks / a tab / a line break / a wrapped line: grouping and value as with one blank", Gen: func(emit func(core.Case)) {
+			for a := range c04Bin {
+				for b := range c04Bin {
+					if !strings.Contains(c04Bin[a].op, " ") && !strings.Contains(c04Bin[b].op, " ") {
+						continue
+					}
+					for gap := 1; gap < 5; gap++ {
+						emit(core.Case{Fam: "chaingap", N: []int{gap, -1, 0, 0, a, b}})
+						emit(core.Case{Fam: "chaingap", N: []int{gap, -1, 0, 1, a, b}})
+					}
+				}
+			}
+		}},
 		{Name: "one operator three times in a row over literal operands (matches / starts with / ends with / in / ~ / == x 7^3 literals x 5 subjects): bare = parenthesised", Gen: func(emit func(core.Case)) {
 			for op := 0; op < 6; op++ {
 				for a := 0; a < 7; a++ {
